@@ -905,7 +905,8 @@ func (s *scenarioRun) checkCalls() {
 		if refHas {
 			wantOutcome = auditlog.OutcomeError
 		}
-		if co.Details.Outcome.Outcome != wantOutcome || co.Details.Outcome.Error != refErr {
+		// the log is a UTF-8 record: bytes that are not valid UTF-8 are recorded as U+FFFD
+		if co.Details.Outcome.Outcome != wantOutcome || co.Details.Outcome.Error != utf8Rec(refErr) {
 			s.viol("outcome-mismatch:"+c.Method, fmt.Sprintf("COMPLETE says %s/%q, the storage call returned %q (caller saw %q)", co.Details.Outcome.Outcome, co.Details.Outcome.Error, refErr, c.Err), wit())
 		}
 		rep.Seen("status_codes", fmt.Sprint(co.Details.Outcome.StatusCode))
@@ -918,11 +919,11 @@ func (s *scenarioRun) checkCalls() {
 				break
 			}
 			r := d.Resource
-			upOK := r.UploadID == c.UploadID
+			upOK := r.UploadID == utf8Rec(c.UploadID)
 			if c.Method == "CreateMultipartUpload" {
-				upOK = r.UploadID == "" || (e == co && r.UploadID == c.ResultID)
+				upOK = r.UploadID == "" || (e == co && r.UploadID == utf8Rec(c.ResultID))
 			}
-			if r.Bucket != c.Bucket || r.Key != c.Key || !upOK || r.PartNumber != c.Part || r.SourceBucket != c.SrcBucket || r.SourceKey != c.SrcKey {
+			if r.Bucket != utf8Rec(c.Bucket) || r.Key != utf8Rec(c.Key) || !upOK || r.PartNumber != c.Part || r.SourceBucket != utf8Rec(c.SrcBucket) || r.SourceKey != utf8Rec(c.SrcKey) {
 				s.viol("resource-mismatch:"+c.Method, fmt.Sprintf("entry resource %+v does not describe the call", r), wit())
 				break
 			}
@@ -1010,6 +1011,7 @@ func c26Scenarios(r *vkit.Run, rng *vkit.Rand) []scenario {
 			mk("fake-multi", "fake", "multi", ph(120, -60, 130), 3500, 3),
 			mk("fake-json-indent", "fake", "json-indent", ph(70, 70), 1500, 1),
 			mk("sqlite-binary", "sqlite", "binary", ph(80, -50, 140), 3500, 3),
+			mk("sqlite-json", "sqlite", "json", ph(0, 100, -40, 130), 3500, 3),
 		)
 	} else {
 		for i := 0; i < 3; i++ {
@@ -1219,3 +1221,7 @@ func runC26(tier, replay string) {
 	}
 	r.Finish()
 }
+
+// utf8Rec is how a string is expected to appear in the audit record: identical
+// when it is valid UTF-8, invalid bytes replaced by U+FFFD otherwise.
+func utf8Rec(s string) string { return strings.ToValidUTF8(s, "\uFFFD") }
